@@ -21,7 +21,10 @@
     [bitmap.OfMany/asOf] [subs; sizes] equal lengths; positions >= size allowed in ANY segment (the shifted concatenation
                                        need not be ascending, Of may panic)  -> [1] if OfMany(subs, sizes) and
                                        Of(shifted concatenation, sum of sizes) agree (same words, or both panic), else [0; a; b].
-                                       Only the RELATION is observed, so Of's behaviour outside its own domain is not pinned. *)
+                                       Only the RELATION is observed, so Of's behaviour outside its own domain is not pinned.
+    [bitmap.Builder/asOfMany] [n; subs; sizes]  ascending shifted concatenation: NewBuilder(n) + one Extend per segment
+                                       -> [1] if Words = OfMany(subs, sizes) word for word and Offset = sum of sizes,
+                                          else [0; OfMany; Words; Offset] *)
 From Coq Require Import ZArith List Bool String.
 From Low Require Import Lib.Bits Lib.BitSeq Lib.Val Model.BuilderOps Model.BitmapOf Spec.OfSpec
   Model.BitmapMask Spec.MaskSpec Model.BitmapFmt Spec.FmtSpec
@@ -271,6 +274,21 @@ Definition ops_C12_any : list opdef := [
                  if owords_eqb x y then VL [VZ 1] else VL [VZ 0; vwords x; vwords y]
                else VBad
            | _, _ => VBad end
+       | _ => VBad end;
+     op_spec := fun_spec (fun _ => VL [VZ 1]) |};
+  {| op_name := "bitmap.Builder/asOfMany";
+     op_run := fun a => match a with
+       | [n; subs; sizes] => match as_z n, as_zss subs, as_zs sizes with
+           | Some n, Some subs, Some sizes =>
+               if (0 <=? n) && ofmany_dom subs sizes && forallb (fun ps => sortedb ps && nonnegb ps) subs then
+                 let ops := map (fun x => BExtend (fst x) (snd x)) (combine subs sizes) in
+                 match bind (NewBuilder n) (fun b => bfoldM b ops), OfMany subs sizes with
+                 | Some b, Some r =>
+                     if zs_eqb r (Words b) && (Offset b =? total sizes) then VL [VZ 1]
+                     else VL [VZ 0; vzs r; vzs (Words b); VZ (Offset b)]
+                 | _, _ => VPanic end
+               else VBad
+           | _, _, _ => VBad end
        | _ => VBad end;
      op_spec := fun_spec (fun _ => VL [VZ 1]) |}
 ].
